@@ -678,6 +678,20 @@ fn deindent_like_capture(src: &str, start: usize, text: &str) -> String {
     .join("\n")
 }
 
+fn stage_opts() -> SrcOpts {
+  let mut opts = SrcOpts::all_langs().with_errors();
+  opts.max_bytes = 1500;
+  opts.synth_weight = 4;
+  opts
+}
+
+/// the same stage, driven by bytes (coverage-guided tier)
+pub fn erased() -> crate::fuzz::Erased {
+  let corpus: &'static Corpus = Box::leak(Box::new(Corpus::load()));
+  let opts: &'static SrcOpts = Box::leak(Box::new(stage_opts()));
+  crate::fuzz::Erased::generic("C06", "rewrites", move || strategy(opts), move |c, st| interpret(corpus, opts, c, st), check)
+}
+
 pub fn run(cfg: &RunCfg) -> i32 {
   let mut report = Report::new(
     cfg,
@@ -690,12 +704,11 @@ pub fn run(cfg: &RunCfg) -> i32 {
   }
   let corpus = Corpus::load();
   crate::replay_known::<Case>(&mut report, &known, check);
-  let mut opts = SrcOpts::all_langs().with_errors();
-  opts.max_bytes = 1500;
-  opts.synth_weight = 4;
+  let opts = stage_opts();
   let total = cfg.budget(15_000, 400_000);
   let o = drive(cfg, "rewrites", total, &known, || strategy(&opts), |c, st| interpret(&corpus, &opts, c, st), check);
   report.absorb("rewrites", o);
   report.floor("nontrivial", 0.2, "evaluations");
+  crate::fuzz::stage(cfg, &mut report, &known, 20000);
   report.finish()
 }
